@@ -97,6 +97,7 @@ struct FamilySpec {
         if (kind == "density") s += ":rep=" + std::to_string(rep) + ":w=" + std::to_string(width) + ":word=" + std::to_string(word) + ":seam=" + std::to_string(seam) + (top ? ":top=" + std::to_string(top) : "");
         else if (kind == "chunktail") s += ":rep=" + std::to_string(rep) + ":w=" + std::to_string(width) + ":word=" + std::to_string(word) + (n ? ":n=" + std::to_string(n) : "");
         else if (kind == "longrun") s += ":n=" + std::to_string(n) + ":seam=" + std::to_string(seam) + ":rep=" + std::to_string(rep) + ":w=" + std::to_string(width) + ":word=" + std::to_string(word);
+        else if (kind == "tworuns") s += ":n=" + std::to_string(n) + ":seam=" + std::to_string(seam) + ":rep=" + std::to_string(rep) + ":w=" + std::to_string(width) + ":word=" + std::to_string(word);
         else if (kind == "stretch") s += ":rep=" + std::to_string(rep) + ":n=" + std::to_string(n) + ":w=" + std::to_string(width);
         else if (kind == "capacity") s += ":rep=" + std::to_string(rep) + ":n=" + std::to_string(n) + ":word=" + std::to_string(word);
         else if (kind == "span") s += ":rep=" + std::to_string(rep) + ":w=" + std::to_string(width) + ":word=" + std::to_string(word);
@@ -248,6 +249,24 @@ template<typename K> bool generate_family(const FamilySpec &f, size_t eps, std::
             for (int j = 0; j < 15; ++j) { keys.push_back(far + W(j) * 50000000); focus.push_back(keys.size() - 1); }
             cur = keys.back();
         }
+        if (cur > hi) return false;
+    } else if (f.kind == "tworuns") {
+        // two duplicate runs meeting just before the end of chunk `seam`: a run of x from `word` positions relative to the start of that
+        // chunk up to `width` slots before its end, then width-1 single keys, then a run of z that starts on the LAST slot of the chunk
+        // and continues `rep` positions into the next chunk, then a gap of 1000; stride-3 background.
+        size_t n = size_t(f.n), p = size_t(f.chunks), chunk = n / p;
+        long B = long((size_t(f.seam) + 1) * chunk);                 // first position of the next chunk
+        long xs = long(size_t(f.seam) * chunk) + f.word, xe = B - 1 - f.width;   // x occupies [xs, xe]
+        long zs = B - 1, ze = B - 1 + f.rep;                         // z occupies [zs, ze]
+        if (xs < 1 || xe < xs || ze >= long(n) - 1 || f.width < 1) return false;
+        W cur = 1000; keys.resize(n); keys[0] = cur;
+        for (size_t i = 1; i < n; ++i) {
+            long li = long(i);
+            if ((li > xs && li <= xe) || (li > zs && li <= ze)) {} else cur += (li == ze + 1 ? 1000 : 3);
+            keys[i] = cur;
+        }
+        for (long q : {xs - 1, xs, xe, xe + 1, zs - 1, zs, zs + 1, ze, ze + 1, ze + 2}) if (q >= 0 && q < long(n)) focus.push_back(size_t(q));
+        focus.push_back(0); focus.push_back(n - 1);
         if (cur > hi) return false;
     } else if (f.kind == "stretch") {
         // `rep` clusters (one segment each), one run of `n` consecutive keys (a single segment covering `n` positions), `width` more
